@@ -168,8 +168,12 @@ def replay_pure(contract_module, fid, obligation, params, candidates, nreal=None
 
 
 def run_bounded(jobs, timeout=3600):
-    p = subprocess.run([VENV_PY, '-m', 'rcc.runner'], input=json.dumps(jobs), capture_output=True,
-                       text=True, timeout=timeout, cwd=VERIF)
+    try:
+        p = subprocess.run([VENV_PY, '-m', 'rcc.runner'], input=json.dumps(jobs), capture_output=True,
+                           text=True, timeout=timeout, cwd=VERIF)
+    except subprocess.TimeoutExpired:
+        # a checker problem (exit 3), never to be mistaken for a violation
+        return [{'name': 'bounded-runner', 'error': 'bounded jobs %s exceeded %d s' % ([j.get('name') for j in jobs], timeout)}]
     if p.returncode != 0:
         return [{'name': 'bounded-runner', 'error': p.stderr[-3000:]}]
     return json.loads(p.stdout)
